@@ -11,7 +11,14 @@ import NibabelModel.Lemmas.C07
   * `Img.wf`  — the header's dtype code is one the header class supports (true of every image nibabel
     builds: `set_data_dtype` refuses anything else; `gen_tables_ok` shows such a code survives
     `hdr.set_data_dtype(hdr.get_data_dtype())`, which is what the `finally:` blocks execute);
-  * `Env.ok`  — a dtype alias resolves to a dtype the NIfTI header supports (uint8/int16/int32/float32).
+  * `Env.ok`  — a dtype alias resolves to a dtype the NIfTI header supports (uint8/int16/int32/float32);
+  * `Img.harmonised` (only where stated) — `update_header()` would not change the header, i.e. affine, shape
+    and header have not been edited in place since the image was built / loaded / last saved. The general
+    statements (`save_harmonises`, `histories_harmonise`, `retry_correct`, `repeat_identical`) do not need it.
+
+  `save_congr`, `save_congr_harm`, `retry_correct`, `repeat_identical`, `second_save_preserves`,
+  `saves_erasable`, `histories_preserve`, `histories_harmonise`, `byname_harmonises` are corollaries of
+  `save_harmonises` (+ the fact that `save` is a function of the observable state).
 -/
 namespace Nb.C07
 
